@@ -227,6 +227,14 @@ func C06(ctx *core.Ctx, r *core.Report) {
 	r.Count("instances:textual-order-kept(sort calls examined)", textualOrderKept(ctx, r, scopeFuncs(ctx, "meta")))
 	c06EscapeOnlyInDoubleQuotes(ctx, r)
 	c06RefineAppliesToTarget(ctx, r)
+	c06DecoderExact(ctx, r)
+	// statements guarded by a feature, and units stated on a node, are part of what was written
+	c11InitializeMerges(ctx, r)
+	{
+		sub := core.NewReport("C02", r.Tier, r.Root, r.Seed)
+		c02Inheritance(ctx, sub)
+		r.Borrow(sub, "typedef-inheritance")
+	}
 	c06CommentTerminator(ctx, r)
 	c06BuilderStoresVerbatim(ctx, r)
 }
